@@ -243,6 +243,7 @@ def iteration(chk, frag, kinds, dtlocal, prior, positive, rp):
     prove("stop-criteria-evaluated-after-the-step", T.tz(ce) == want, replay=rp)
     if kinds is None:
         # default stop (the last save time): when the run stops every requested time has been served
+        monotone_pair(tsave, isave2, nsave - 1)
         prove("default-stop/all-save-times-served", z3.Implies(T.tz(ce), T.tz(isave2) == ns), replay=rp)
     prove("loop-continues-until-a-criterion-holds", ast.unparse(frag["main"].test).replace(" ", "") == "notcheckend", replay=rp)
     # a run that ends without any snapshot returns the final state, tagged with its iteration
